@@ -269,6 +269,11 @@ void cmb_timeseries_histogram_print(const struct cmb_timeseries *tsp,
         /* Autoscale to dataset range */
         low_lim = dsp->min;
         high_lim = dsp->max;
+        if (low_lim == high_lim) {
+            /* Constant data: a range of zero has no bin size, use one unit */
+            low_lim -= 0.5;
+            high_lim += 0.5;
+        }
     }
 
     const unsigned datarange = (unsigned)ceil(high_lim - low_lim);
